@@ -55,6 +55,7 @@ def make_list(rng, fmt):
         a = rng.normal(size=(dim, dim))
         cov = a @ a.T + 0.3 * np.eye(dim)
         cov = (cov + cov.T) / 2
+        cov = cov * float(rng.choice([1.0, 1.0, 1e-10, 1e-16, 1e6]))          # systematic errors of any size
         cl = pe.cov_Obs([float(rng.normal()) for _ in range(dim)], cov, 'sys%d' % dim)
         covs = [cl] if dim == 1 else list(cl)
     out = []
@@ -82,7 +83,7 @@ def make_list(rng, fmt):
         if covs and rng.random() < 0.7:
             for c in covs:
                 if rng.random() < 0.7:
-                    o = o + float(np.round(rng.normal(), 3) or 0.5) * c
+                    o = o + float(np.round(rng.normal(), 3) or 0.5) * float(rng.choice([1.0, 1.0, 1e-9])) * c
         out.append(o)
     return out, kind
 
